@@ -6,6 +6,7 @@ HARNESSES = {
     'disp': dict(sources=['src/h_disp.cpp']),
     'cq': dict(sources=['src/h_cq.cpp']),
     'remover': dict(sources=['src/h_remover.cpp']),
+    'heter': dict(sources=['src/h_heter.cpp']),
 }
 
 
@@ -178,6 +179,18 @@ prop('C16', 'exploration',
      'that re-trigger the same event re-entrantly; oracle = per wrapped listener trigger model on top of the nested-invocation list model; non-trivial = (count <=0 or >=2 with a re-entrant trigger, or a condition '
      'turning true on a nested trigger) with other listeners present',
      COMMON_ASSUME, q, t)
+
+q, t = std_stages('heter', 3000, 150000, fuzz_runs=500000)
+q['stages'].append(dict(engine='rc', harness='heter', variant='gxx', procs=8, cases=1500, timeout=900))
+t['stages'].append(dict(engine='rc', harness='heter', variant='gxx', procs=16, cases=50000, timeout=3600))
+prop('C14', 'exploration',
+     'rapidcheck-generated histories on HeterEventQueue (which contains the HeterEventDispatcher and HeterCallbackList paths) over three prototype lists chosen so that first-match order matters and payloads differ in '
+     'size and triviality: <void(), void(int), void(const string&), void(const Big&)>, <void(long), void(int), void(Tracked,int)> (an int argument matches the first, void(int) is shadowed), and a std::string-keyed '
+     'include-event list; callables and arguments of every shape (exact, convertible, generic, shadowed), process/processOne/processIf with a predicate of each prototype and one callable with two; '
+     'expected prototype indices are a hand-written table; oracle = per-prototype list models, argument summaries, exactly-once FIFO, processIf examines only its prototypes and leaves the rest in place; '
+     'built with clang++ and g++; non-trivial = a processIf with an event of a foreign prototype pending, on a queue where a slot was recycled across prototypes',
+     COMMON_ASSUME + ['prototype lists are the three rows of the table', 'which of the matching prototypes a multi-prototype predicate examines is left open (only "never a foreign one, never twice, dispatch iff true")'],
+     q, t)
 
 
 _ALL = ['C%02d' % i for i in range(1, 21)]
